@@ -9,7 +9,7 @@ from pbt.util import pretty, call
 ID = "C15"
 TITLE = "Gridded stochastic output agrees with the underlying path"
 RULE = ("Models, initial states, parameters and seeds as in C04; output grids of 3-10 points starting at t0 (list, tuple or "
-        "array; uniform or not; the last point possibly far beyond extinction). Oracle, exact mode: differential against the same "
+        "array; uniform or not; the last point possibly far beyond extinction). In a third of the cases 1-2 magnitudes are carried by whole-number parameters and a second gridded call follows on the same object after the parameters were re-assigned (checked against the state-change matrix of the new values). Oracle, exact mode: differential against the same "
         "random stream - re-seed and run solve_stochast(grid[-1], n, exact=True, full_output=True) to obtain the raw path (same loop, "
         "same draws), then row k must equal the raw state at the last event time <= t_k, the counts of interval k must equal the "
         "per-transition sums of raw counts with event time in (t_k, t_{k+1}], hence X[k+1]-X[k] == V*counts[k]; shape (len(grid), nS), "
@@ -46,26 +46,48 @@ def strategy(tier):
                 rel.append(h * acc / tot)
             if kind == "beyond":
                 rel[-1] = rel[-1] + 5 * h
-        return {"model": m, "setup": su, "grid_rel": [S.sig(v, 6) for v in rel],
-                "grid_type": draw(st.sampled_from(["list", "tuple", "array"])),
-                "exact": draw(st.sampled_from([True, True, True, False])),
-                "iters": draw(st.integers(1, 2))}
+        c = {"model": m, "setup": su, "grid_rel": [S.sig(v, 6) for v in rel],
+             "grid_type": draw(st.sampled_from(["list", "tuple", "array"])),
+             "exact": draw(st.sampled_from([True, True, True, False])),
+             "iters": draw(st.integers(1, 2))}
+        if draw(st.integers(0, 2)) == 0:
+            # magnitudes carried by parameters, and a SECOND gridded call on the same object after the parameters (incl. those
+            # magnitudes) were re-assigned: the second output must follow the model's current state-change matrix
+            pm = draw(S.parametrise_magnitudes(m, su))
+            if pm is not None:
+                c["model"], c["setup"], theta_alt = pm
+                c["second"] = {"theta": theta_alt, "np_seed": draw(st.integers(0, 2 ** 32 - 1)),
+                               "grid_type": draw(st.sampled_from(["list", "tuple", "array"]))}
+        return c
     return case()
 
 
 def oracle(case, rec):
     m, su = case["model"], case["setup"]
+    model, order = stoch.prepare(m, su)
+    _check_call(case, rec, model, order, su, case["grid_type"], "")
+    sec = case.get("second")
+    if sec:
+        rec.label("second-call-after-parameter-change")
+        su2 = dict(su, theta=sec["theta"], np_seed=sec["np_seed"])
+        model.parameters = list(su2["theta"])
+        model.initial_values = (list(su2["x0"]), np.float64(su2["t0"]))
+        _check_call(case, rec, model, order, su2, sec["grid_type"], "second-call/")
+
+
+def _check_call(case, rec, model, order, su, grid_type, tag):
+    m = case["model"]
     n_s, n_e = len(ir.state_names(m)), len(m["events"])
     grid = np.array([su["t0"] + v for v in case["grid_rel"]])
     if not (np.diff(grid) > 0).all():
         raise Inconclusive("degenerate grid")
-    g_arg = {"list": list(grid), "tuple": tuple(grid), "array": grid}[case["grid_type"]]
+    g_arg = {"list": list(grid), "tuple": tuple(grid), "array": grid}[grid_type]
     exact = case["exact"]
-    model, order = stoch.prepare(m, su)
     V = stoch.V_int(m, su["theta"], order)
-    key = "C15/" + ("exact" if exact else "tau")
-    rec.label("mode:" + ("exact" if exact else "tau"), "grid:" + case["grid_type"])
-    box = stoch.limit_steps(model, 600000 if exact else 60000)
+    key = "C15/" + tag + ("exact" if exact else "tau")
+    rec.label("mode:" + ("exact" if exact else "tau"), "grid:" + grid_type)
+    if not tag:
+        stoch.limit_steps(model, 1200000 if exact else 120000)
     try:
         np.random.seed(su["np_seed"])
         out = stoch.simulate("C15", key, case, model.solve_stochast, g_arg, case["iters"], exact=exact, full_output=True, parallel=False)
